@@ -336,9 +336,14 @@ impl<Sink: TokenSink> Tokenizer<Sink> {
     // NB: this doesn't set the current input character.
     fn eat(&self, input: &BufferQueue, pat: &str, eq: fn(&u8, &u8) -> bool) -> Option<bool> {
         if self.ignore_lf.get() {
-            self.ignore_lf.set(false);
-            if self.peek(input) == Some('\n') {
-                self.discard_char(input);
+            // Keep the flag while no character is available to look at.
+            match self.peek(input) {
+                Some('\n') => {
+                    self.ignore_lf.set(false);
+                    self.discard_char(input);
+                },
+                Some(_) => self.ignore_lf.set(false),
+                None => (),
             }
         }
 
